@@ -4,6 +4,7 @@ import IrVerif.Model.SortState
 import IrVerif.Model.SortIds
 import IrVerif.Model.SortFull
 import IrVerif.Model.Heap
+import IrVerif.Model.SortHeap
 /-! Protocol handler for the C12 model (`IrVerif.Sort`).
 
 Requests: `{"m": "sort.sort", "graph": G}` (`r` = `sortModel`, `after` = `sortEffect`, `ids` = `sortIds`, the
@@ -27,7 +28,11 @@ and `passHypB`); a `sort` event runs `sortF`.  Per sort / pass: outcome, write t
 names of the listed nodes / values / tensors, the authorities of the listed graphs, the hypotheses
 (`Consistent`, order is an arrangement of `keysF`, C11's invariant, `passHypB`).
 `{"m": "sort.heap", "ops": [["push", k] | ["pop"] ...], "init": [k..]}`: `heapq.heapify` / `heappush` / `heappop` on a list
-(`Model/Heap.lean`): the list after every operation, the popped keys, the heap invariant after every operation. -/
+(`Model/Heap.lean`): the list after every operation, the popped keys, the heap invariant after every operation;
+`pops` = `runHeap`, `abs` = `runAbs` (the abstract priority queue of `C12_heap_extract_min`).
+`sort.sort` also returns `heap` = `sortHeap` (`Model/SortHeap.lean`, the loop on the binary heap);
+`{"m": "sort.heaptrace", "graph": G}`: per iteration of `while priority_queue:` the queue (as positions, in `heapq`'s list
+layout) before the `heappop` and the popped node; `final` = the queue when the loop ends. -/
 open Lean IrVerif.Drive
 namespace IrVerif.Drive.Sort
 open IrVerif.Sort
@@ -261,6 +266,7 @@ def runFull (evs : List FEv) : List Json :=
         obj ([("out", foutJ r.out), ("trace", graphsJ r.trace), ("after", absJ r.world.sw),
           ("inv", toJson (r.world.sw.rw.sets.all LinkedSet.invOk)), ("gls", natsJ gls),
           ("order_ok", toJson rs.2), ("pass_hyp", toJson (passHypB w.sw rs.1)),
+          ("pass_cons", toJson (passConsB w rs.1)), ("pass_disj", toJson (passDisjB w.sw rs.1)),
           ("w_out", soutJ rw.out), ("w_after", absJ rw.world), ("w_trace", graphsJ rw.trace)] ++ recsJ r.world ns vs gs)
           :: go r.world ns vs gs os
   go ⟨SWorld.init, fun _ => {}, fun _ => {}, fun _ => {}⟩ [] [] [] evs
@@ -273,9 +279,26 @@ def handle : Handler := fun m j =>
       let ids := match sortIds g with
         | none => Json.str "raised"
         | some r => graphsJ r
+      let hp := match sortHeap g with
+        | none => Json.str "raised"
+        | some r => graphsJ r
       match sortModel g with
-      | none => return obj [("r", Json.str "raised"), ("after", graphsJ eff.2), ("ids", ids)]
-      | some r => return obj [("r", graphsJ r), ("after", graphsJ eff.2), ("ids", ids)]
+      | none => return obj [("r", Json.str "raised"), ("after", graphsJ eff.2), ("ids", ids), ("heap", hp)]
+      | some r => return obj [("r", graphsJ r), ("after", graphsJ eff.2), ("ids", ids), ("heap", hp)]
+  | "sort.heaptrace" => some do
+      let g ← parseGraph (← j.getObjVal? "graph")
+      let u := nodesOf g
+      let posJ := fun (h : List Nat) => natsJ (h.map (fun k => u.length - k))
+      let rec go : Nat → HState → List Json → List Json × HState
+        | 0, s, acc => (acc.reverse, s)
+        | f + 1, s, acc =>
+          match stepH u (step1 u).preds (nodeIndex u) s with
+          | none => (acc.reverse, s)
+          | some s' => go f s' (obj [("heap", posJ s.heap), ("pop", toJson (s'.sorted.headD 0)),
+              ("inv", toJson (Heap.isHeap s.heap))] :: acc)
+      let r := go u.length (kahnHeapInit u) []
+      return obj [("steps", Json.arr r.1.toArray), ("final", posJ r.2.heap),
+        ("same", toJson (r.2.sorted == (kahnHeap u).sorted))]
   | "sort.universe" => some do
       let g ← parseGraph (← j.getObjVal? "graph")
       return obj [("r", Json.arr ((nodesOf g).map (fun e =>
@@ -319,7 +342,9 @@ def handle : Handler := fun m j =>
           let r := Heap.heappop h
           obj [("heap", natsJ r.2), ("pop", optNatJ r.1), ("inv", toJson (Heap.isHeap r.2)),
             ("min", optNatJ (Heap.minOf h))] :: run r.2 os
-      return obj [("heap0", natsJ h0), ("inv0", toJson (Heap.isHeap h0)), ("steps", Json.arr (run h0 ops).toArray)]
+      return obj [("heap0", natsJ h0), ("inv0", toJson (Heap.isHeap h0)), ("steps", Json.arr (run h0 ops).toArray),
+        ("pops", Json.arr ((Heap.runHeap h0 ops).map optNatJ).toArray),
+        ("abs", Json.arr ((Heap.runAbs init ops).map optNatJ).toArray)]
   | "sort.relink" => some do
       return obj [("r", natsJ (relink (← getNats j "cur") (← getNats j "xs")))]
   | _ => none
